@@ -419,21 +419,28 @@ wblock_tr!(47, w_enc_47, w_dec_47, w_rt_47, w_rtrev_47);
 // @ob name=w_rtrev_48 props=C01,C18,C20 kind=bounded bound="input length 48 bytes" fn=belt_block::belt_wblock_enc,belt_block::belt_wblock_dec uses=c_belt_block_raw timeout=900
 wblock_tr!(48, w_enc_48, w_dec_48, w_rt_48, w_rtrev_48);
 
-// Every length below 32: both calls return the length error and leave the buffer as it was (complete: all n <= 31,
-// all contents; no stub).
+// Every length below 32: both calls return the length error and leave the buffer as it was.  Complete: the loop
+// enumerates all 32 lengths n = 0..=31 (concrete, so each call is decided by the length test alone) and the buffer
+// contents and key are symbolic.  belt_block_raw is replaced by a function that fails when reached: the block
+// function is never invoked on short input.
+fn never_block(x: [u32; 4], _key: &[u32; 8]) -> [u32; 4] {
+    assert!(false);
+    x
+}
 // @ob name=w_short props=C18,C20 fn=belt_block::belt_wblock_enc,belt_block::belt_wblock_dec timeout=600
 #[kani::proof]
-#[kani::unwind(40)]
+#[kani::stub(belt_block_raw, never_block)]
+#[kani::unwind(34)]
 fn w_short() {
     let key: [u32; 8] = kani::any();
     let arr: [u8; 31] = kani::any();
-    let mut d = arr;
-    let n: usize = kani::any();
-    kani::assume(n <= 31);
-    kani::cover!(n == 0);
-    kani::cover!(n == 31);
-    assert!(belt_wblock_enc(&mut d[..n], &key).is_err());
-    assert!(eq_bytes(&d, &arr));
-    assert!(belt_wblock_dec(&mut d[..n], &key).is_err());
-    assert!(eq_bytes(&d, &arr));
+    let mut n = 0usize;
+    while n <= 31 {
+        let mut d = arr;
+        assert!(belt_wblock_enc(&mut d[..n], &key).is_err());
+        assert!(eq_bytes(&d, &arr));
+        assert!(belt_wblock_dec(&mut d[..n], &key).is_err());
+        assert!(eq_bytes(&d, &arr));
+        n += 1;
+    }
 }
